@@ -89,6 +89,44 @@ def date_add_cal_claim(sign):
     return claim
 
 
+
+def dt_total_of(r):
+    """r: Out of (D3, T4) -> exact nanosecond count since the epoch of that civil datetime"""
+    d, t = r[0].ints(), r[1].ints()
+    return And(ref_valid_date(*d), ref_valid_time(*t)), ref_epoch_day(*d) * DAY_NS + nanos_of_day(*t)
+
+
+DT_MIN = MIN_DAY * DAY_NS
+DT_MAX = (MAX_DAY + 1) * DAY_NS - 1
+
+
+def dt_add_claim(sign):
+    def claim(a, o):
+        s = sgn(a[7]) * sign
+        y2, m2, d2 = ref_add_months(a[0], a[1], a[2], s * a[8], s * a[9])
+        tunits = a[12] * HOUR_NS + a[13] * MIN_NS + a[14] * NS + a[15]
+        total = ref_epoch_day(y2, m2, d2) * DAY_NS + s * (7 * a[10] + a[11]) * DAY_NS + nanos_of_day(a[3], a[4], a[5], a[6]) + s * tunits
+        ok = And(in_range(y2, -9999, 9999), in_range(total, DT_MIN, DT_MAX))
+
+        def payload(r):
+            v, t = dt_total_of(r)
+            return And(v, t == total)
+        return And(o.is_some, opt_is(o.some, ok, payload))
+    return claim
+
+
+def dt_add_sdur_claim(a, o):
+    total = ref_epoch_day(a[0], a[1], a[2]) * DAY_NS + nanos_of_day(a[3], a[4], a[5], a[6]) + a[7] * NS + a[8]
+    ok = in_range(total, DT_MIN, DT_MAX)
+
+    def payload(r):
+        v, t = dt_total_of(r)
+        return And(v, t == total)
+    vs, ts = dt_total_of(o.some[1])
+    sat = And(vs, ts == If(total < DT_MIN, DT_MIN, If(total > DT_MAX, DT_MAX, total)))
+    return And(o.is_some, opt_is(o.some[0], ok, payload), sat)
+
+
 B_DATE = {0: (-9999, 9999), 1: (1, 12), 2: (1, 31)}
 B_CAL = {**B_DATE, 4: (0, LIM["years"]), 5: (0, LIM["months"]), 6: (0, LIM["weeks"]), 7: (0, LIM["days"])}
 
@@ -164,4 +202,15 @@ KERNELS = [
     K("c08::k_date_sub_cal", pre=lambda a: And(date_ok(a), cal_ok(a, 3)),
       claims=[("Date::checked_sub == checked_add of the negated span", date_add_cal_claim(-1))],
       bounds=B_CAL, split=(0, 64), tier="thorough", timeout=900),
+    K("c08::k_dt_add_span", pre=lambda a: And(ref_valid_date(a[0], a[1], a[2]), ref_valid_time(a[3], a[4], a[5], a[6]), in_range(a[0], 2096, 2104),
+                                            in_range(a[8], 0, 8), in_range(a[9], 0, 100), in_range(a[10], 0, 60), in_range(a[11], 0, 400),
+                                            in_range(a[12], 0, 100000), in_range(a[13], 0, 6000000), in_range(a[14], 0, 400000000), in_range(a[15], 0, LIM["nanoseconds"])),
+      claims=[("DateTime::checked_add(span) (date in 2096..2104, moderate unit magnitudes): years+months first with the day clamped, then weeks+days, then the time units carried across midnight in 24-hour days",
+               dt_add_claim(1))],
+      bounds={0: (2096, 2104), 1: (1, 12), 2: (1, 31), 3: (0, 23), 4: (0, 59), 5: (0, 59), 6: (0, 999999999), 8: (0, 8), 9: (0, 100), 10: (0, 60), 11: (0, 400),
+              12: (0, 100000), 13: (0, 6000000), 14: (0, 400000000), 15: (0, LIM["nanoseconds"])}, timeout=300),
+    K("c08::k_dt_add_sdur", pre=lambda a: And(ref_valid_date(a[0], a[1], a[2]), ref_valid_time(a[3], a[4], a[5], a[6]), sdur_ok(a[7], a[8]), in_range(a[0], 2096, 2104)),
+      claims=[("DateTime::checked_add(SignedDuration) (date in 2096..2104, every duration) == exact instant arithmetic; Err iff out of range; saturating_add clamps",
+               dt_add_sdur_claim)],
+      bounds={0: (2096, 2104), 1: (1, 12), 2: (1, 31), 3: (0, 23), 4: (0, 59), 5: (0, 59), 6: (0, 999999999), 8: (-999999999, 999999999)}, timeout=300),
 ]
